@@ -288,8 +288,8 @@ type history struct {
 	taint    map[string]bool // partitions whose content an injected disk fault made indeterminate
 	snap     bool            // snapshot run: operations on keys are also recorded in the partition of all keys
 	noSnap   bool
-	snapKeys []string // the key partitions, in the order of their index in the snapshot partition
-	recycles []*recycle      // bucket delete+re-create operations (the bucket may be absent while one is in flight)
+	snapKeys []string   // the key partitions, in the order of their index in the snapshot partition
+	recycles []*recycle // bucket delete+re-create operations (the bucket may be absent while one is in flight)
 }
 
 type recycle struct{ call, ret int64 }
